@@ -139,6 +139,11 @@ pub struct Scenario {
     /// moves the history's identifiers beyond 255 or across the 16-bit wrap-around
     #[serde(default)]
     pub id_offset: u32,
+    /// variation of the connection prologue that no property depends on (see
+    /// `connect_and_run_v`): Session Present, unrelated CONNACK properties and their order,
+    /// CONNACK through an AUTH exchange, client-side CONNECT options
+    #[serde(default)]
+    pub prologue: u8,
     pub events: Vec<Ev>,
 }
 
@@ -1859,7 +1864,7 @@ pub fn run_with_block(scn: &Scenario, cfg: &SimCfg, block_at: usize) -> SimOut {
         ..Default::default()
     };
     let mut failures = vec![];
-    if let Err(e) = connect_and_run(&mut w, ConnectSpec::default(), &connack, &WritePlan::default()) {
+    if let Err(e) = connect_and_run_v(&mut w, ConnectSpec::default(), &connack, &WritePlan::default(), scn.prologue) {
         failures.push(Failure { sig: "HARNESS/prologue".into(), msg: e });
         return SimOut { failures, stats: Stats::default(), proj: Projections::default() };
     }
